@@ -11,6 +11,7 @@ import Mathlib.Algebra.Order.Round
 import Mathlib.Tactic.Module
 import Mathlib.Tactic.NormNum
 import Mathlib.Tactic.Linarith
+import Mathlib.Tactic.NoncommRing
 
 namespace QV
 namespace Evo
@@ -89,6 +90,41 @@ theorem trotterProd_neg_mul (a : ℂ) (hs : List 𝔸) :
       _ = 1 := by rw [propagator_neg_mul, one_mul, ih, mul_one, propagator_neg_mul]
 
 end banach
+
+/-! ### first order of the symmetric product, formally -/
+
+section formal
+variable {R : Type*} [Ring R]
+
+/-- with a formal step `a` (`a² = 0`, commuting with the terms) every exponential is `1 + a h`
+and a product of them is `1 + a Σ h`. -/
+theorem prod_one_add_nilpotent (a : R) (ha : a * a = 0) (l : List R) (hc : ∀ h ∈ l, Commute a h) :
+    (l.map fun h => 1 + a * h).prod = 1 + a * l.sum := by
+  induction l with
+  | nil => simp
+  | cons h l ih =>
+    have hah : Commute a h := hc h (List.mem_cons_self ..)
+    rw [List.map_cons, List.prod_cons, ih (fun b hb => hc b (List.mem_cons_of_mem _ hb)),
+      List.sum_cons]
+    have key : a * h * (a * l.sum) = 0 := by
+      rw [mul_assoc, ← mul_assoc h a, ← hah.eq, mul_assoc, ← mul_assoc, ha, zero_mul]
+    calc (1 + a * h) * (1 + a * l.sum)
+        = 1 + a * h + a * l.sum + a * h * (a * l.sum) := by noncomm_ring
+      _ = 1 + a * (h + l.sum) := by rw [key]; noncomm_ring
+
+/-- **first-order consistency of the symmetric Trotter product**, for every list of terms:
+to first order in the (halved) step `a`, the queue `hs ++ hs.reverse` generates `2 a Σ h`,
+i.e. `dt · H`. -/
+theorem trotter_first_order (a : R) (ha : a * a = 0) (hs : List R) (hc : ∀ h ∈ hs, Commute a h) :
+    ((hs ++ hs.reverse).map fun h => 1 + a * h).prod = 1 + a * (hs.sum + hs.sum) := by
+  rw [prod_one_add_nilpotent a ha]
+  · rw [List.sum_append, List.sum_reverse]
+  · intro h hh
+    rcases List.mem_append.mp hh with h1 | h1
+    · exact hc h h1
+    · exact hc h (List.mem_reverse.mp h1)
+
+end formal
 
 /-! ### the same for complex matrices (any finite index type, e.g. `Fin (2 ^ n)`) -/
 
